@@ -7,6 +7,7 @@ import (
 	"go/ast"
 	"go/token"
 	"go/types"
+	"sort"
 	"strings"
 )
 
@@ -31,6 +32,7 @@ func c08(c *Ctx) {
 	// a retried create reuses its token, so a call that took effect is not repeated (shared rule C16.R2)
 	c19R1(c)
 	c16R2(c)
+	c08R11(c)
 	// trimming only removes idle, non-primary addresses (shared rule)
 	c03R2(c)
 	c03R6(c)
@@ -887,4 +889,81 @@ func mergeRule(c *Ctx, rule string) {
 	})
 	c.Floor(rule, "deletions in mergeIPMap", 1, nDel)
 	c.Floor(rule, "additions in mergeIPMap", 1, nAdd)
+}
+
+// R11: one definition of "spare address". The demand side (getAllocatable: what
+// an interface already has to offer, subtracted from what must be requested) and
+// the trim side (IdlesWithAvailable: what counts towards the idle total compared
+// with the watermarks) test the same conditions on an address of the record. If
+// one of them counts an address the other does not, the controller assigns on
+// one pass what it unassigns on the next and never reaches a fixed point.
+func c08R11(c *Ctx) {
+	p := c.P
+	c.Rule("C08.R11", "sibling agreement: getAllocatable (demand side) and IdlesWithAvailable (trim side) apply the same tests to an address of the record (same fields, same comparisons) — one definition of a spare address")
+	a := p.Func(nodeCtlPkg, "getAllocatable")
+	b := p.Func(nodeCtlPkg, "IdlesWithAvailable")
+	if a == nil || b == nil {
+		c.Unres("C08.R11", "getAllocatable / IdlesWithAvailable", "not found")
+		return
+	}
+	lits := func(fn *FuncInfo) []string {
+		info := fn.Info()
+		set := map[string]bool{}
+		isIPField := func(x ast.Expr) (string, bool) {
+			sel, ok := ast.Unparen(x).(*ast.SelectorExpr)
+			if !ok {
+				return "", false
+			}
+			fv, _ := info.ObjectOf(sel.Sel).(*types.Var)
+			if fv == nil || !fv.IsField() || !typeIs(info.TypeOf(sel.X), modPath+"/"+apiPkg, "IP") {
+				return "", false
+			}
+			return fv.Name(), true
+		}
+		constText := func(x ast.Expr) string {
+			if tv := info.Types[ast.Unparen(x)]; tv.Value != nil {
+				return tv.Value.ExactString()
+			}
+			return exprString(x)
+		}
+		ast.Inspect(fn.Decl.Body, func(k ast.Node) bool {
+			switch t := k.(type) {
+			case *ast.BinaryExpr:
+				switch t.Op {
+				case token.EQL, token.NEQ:
+					if f, ok := isIPField(t.X); ok {
+						set[f+" "+t.Op.String()+" "+constText(t.Y)] = true
+					} else if f, ok := isIPField(t.Y); ok {
+						set[f+" "+t.Op.String()+" "+constText(t.X)] = true
+					}
+				case token.LAND, token.LOR:
+					for _, side := range []ast.Expr{t.X, t.Y} {
+						if f, ok := isIPField(side); ok {
+							set[f] = true
+						}
+					}
+				}
+			case *ast.UnaryExpr:
+				if t.Op == token.NOT {
+					if f, ok := isIPField(t.X); ok {
+						set["!"+f] = true
+					}
+				}
+			case *ast.IfStmt:
+				if f, ok := isIPField(t.Cond); ok {
+					set[f] = true
+				}
+			}
+			return true
+		})
+		var out []string
+		for k := range set {
+			out = append(out, k)
+		}
+		sort.Strings(out)
+		return out
+	}
+	la, lb := lits(a), lits(b)
+	c.Check(len(la) > 0 && strings.Join(la, " ∧ ") == strings.Join(lb, " ∧ "), "C08.R11", "getAllocatable and IdlesWithAvailable test an address alike", p.Pos(a.Decl), a.Key(),
+		"the same set of tests on the address", "demand side: {"+strings.Join(la, ", ")+"}  trim side: {"+strings.Join(lb, ", ")+"}")
 }
